@@ -128,9 +128,12 @@ fn batch(sink: &mut Sink, vs: &Vs, toks: &[Tok]) {
     stubs::set_clock(vs.now, 100);
     let store = store_with(vs);
     let out = guarded(|| {
-        let mut v = PriceValidator::try_from(&*store).expect("validator");
         let mut n = 0usize;
         let mut err = String::new();
+        let mut v = match PriceValidator::try_from(&*store) {
+            Ok(v) => v,
+            Err(e) => return (0, err_name(&e), false, json!({"has": false, "lo": 0, "hi": 0, "slot": -1})),
+        };
         for t in toks {
             let tc = token_config(t.feed.then(|| key(20, 1)), t.adj, t.dev);
             let price = price_of(&t.p);
@@ -271,26 +274,35 @@ fn batch_random(sink: &mut Sink, rng: &mut Rng, n: u64) {
 // adjust (C29)
 fn adjust(sink: &mut Sink, k: u32, p: &P, r: &Ref) {
     stubs::set_clock(0, 100);
+    // harness set-up (gmsol-utils config types, not code under test)
+    let fc = FeedConfig::new(key(20, 1)).with_max_deviation_factor(Some(k as u128 * PCT)).expect("fc");
+    let tc = token_config(Some(key(20, 1)), 0, k);
+    let store = store_with(&Vs { now: 0, age: 0, range: 0, excess: 0 });
+    // every result of code under test is data: (res, err, some, q, vok, sok, dsome, dq)
     let out = guarded(|| {
-        let fc = FeedConfig::new(key(20, 1)).with_max_deviation_factor(Some(k as u128 * PCT)).expect("fc");
-        let (some, q) = o_hook::try_adjust_price(&fc, price_of(p), ref_of(r)).expect("try_adjust_price");
-        // what happens to the resulting price next: validate_one with the same factor, then PriceMap::set
-        let store = store_with(&Vs { now: 0, age: 0, range: 0, excess: 0 });
-        let mut v = PriceValidator::try_from(&*store).expect("validator");
-        let tc = token_config(Some(key(20, 1)), 0, k);
-        let vok = v_hook::validate_one(&mut v, &tc, &PROVIDER, 0, 0, &q, ref_of(r).as_ref()).is_ok();
-        let sok = pm_hook::small_prices_from_price(&q, false, true).is_ok();
-        // the inner function directly (same result expected)
+        // the inner function directly
         let direct = o_hook::try_adjust_price_with_max_deviation_factor(&(k as u128 * PCT), &price_of(p), ref_of(r).as_ref());
-        assert_eq!(direct.is_some(), some, "try_adjust_price vs inner function");
-        (some, p_of(&q), vok, sok)
+        let (dsome, dq) = (direct.is_some(), direct.map(|q| p_of(&q)).unwrap_or(*p));
+        match o_hook::try_adjust_price(&fc, price_of(p), ref_of(r)) {
+            // a returned error = the price is rejected: nothing is handed on, nothing is judged afterwards
+            Err(e) => ("err".to_string(), err_name(&e), false, *p, false, false, dsome, dq),
+            Ok((some, q)) => {
+                // what happens to the resulting price next: validate_one with the same factor, then PriceMap::set
+                let vok = match PriceValidator::try_from(&*store) {
+                    Ok(mut v) => v_hook::validate_one(&mut v, &tc, &PROVIDER, 0, 0, &q, ref_of(r).as_ref()).is_ok(),
+                    Err(_) => false,
+                };
+                let sok = pm_hook::small_prices_from_price(&q, false, true).is_ok();
+                ("ok".to_string(), String::new(), some, p_of(&q), vok, sok, dsome, dq)
+            }
+        }
     });
-    let (some, q, vok, sok, panic) = match out {
-        Ok((s, q, v, o)) => (s, q, v, o, false),
-        Err(()) => (false, *p, false, false, true),
+    let (res, err, some, q, vok, sok, dsome, dq, panic) = match out {
+        Ok((res, err, s, q, v, o, ds, dq)) => (res, err, s, q, v, o, ds, dq, false),
+        Err(()) => ("err".to_string(), "panic".to_string(), false, *p, false, false, false, *p, true),
     };
-    sink.emit(json!({"op": "adjust", "k": k, "p": p_json(p), "ref": ref_json(r), "some": some, "q": p_json(&q),
-        "vok": vok, "sok": sok, "panic": panic}));
+    sink.emit(json!({"op": "adjust", "k": k, "p": p_json(p), "ref": ref_json(r), "res": res, "err": err, "some": some,
+        "q": p_json(&q), "vok": vok, "sok": sok, "dsome": dsome, "dq": p_json(&dq), "panic": panic}));
 }
 
 fn adjust_small(sink: &mut Sink) {
